@@ -25,7 +25,7 @@ def all_storage_facts():
 
 
 DRV_FACT_NAMES = ["rejectsEmptyKey", "rejectsLongKey", "flushCmp", "flushAtCount", "deleteRemoves", "validatesCrc", "validatesULen",
-                  "boundsCompressedSize", "boundsDecodedLen", "parseConsumesAll", "shortPayloadIsEOF", "chronSurfacesError", "apiValidatesKeys", "apiBoundsNameLength", "tuiListsAll", "openCutsTornTail", "v2Fallback", "rejectsLongName"]
+                  "boundsCompressedSize", "boundsDecodedLen", "parseConsumesAll", "shortPayloadIsEOF", "zeroSizeIsEOF", "zeroTailIsEOF", "openStopsAtZeroSize", "chronSurfacesError", "apiValidatesKeys", "apiBoundsNameLength", "tuiListsAll", "openCutsTornTail", "v2Fallback", "rejectsLongName"]
 
 
 def drv_args(own_facts):
